@@ -67,23 +67,28 @@ func (s *StepCodeGenerator) Run(_ *input.Input, o *output.Output) error {
 	return nil
 }
 
+// maxSymlinkHops limits the number of dangling links followed one by one by writeFile.
+const maxSymlinkHops = 40
+
 // writeFile writes data to a temporary file next to name and renames it over name,
 // so a failed write (e.g. a full disk) never leaves a truncated or partial file behind.
 func writeFile(name string, data []byte, perm os.FileMode) (err error) {
 	fi, statErr := os.Lstat(name)
-	if statErr == nil && fi.Mode()&os.ModeSymlink != 0 {
+	for hops := 0; statErr == nil && fi.Mode()&os.ModeSymlink != 0 && hops < maxSymlinkHops; hops++ {
 		// replace the file the link points to, the link itself stays
 		if target, err := filepath.EvalSymlinks(name); err == nil {
 			name = target
-			fi, statErr = os.Lstat(name)
 		} else if link, linkErr := os.Readlink(name); linkErr == nil && errors.Is(err, fs.ErrNotExist) {
-			// a dangling link: create the file it points to (relative to the directory of the link)
+			// a dangling link: create the file it points to (relative to the directory of the link);
+			// the target may be a dangling link itself, so keep following
 			if !filepath.IsAbs(link) {
 				link = filepath.Join(filepath.Dir(name), link)
 			}
 			name = link
-			fi, statErr = os.Lstat(name)
+		} else {
+			break
 		}
+		fi, statErr = os.Lstat(name)
 	}
 	switch {
 	case statErr == nil && !fi.Mode().IsRegular():
